@@ -49,7 +49,9 @@ Ccontainer == <<Ttop, T("container")>>
 
 (* ---------------------------------------------------------------- domains *)
 RootDn == <<DC(T("example")), DC(T("com"))>>
-DomDn(k) == CASE k = 1 -> RootDn [] k = 2 -> <<DC(T("corp"))>> \o RootDn [] k = 3 -> <<DC(T("other")), DC(T("net"))>>
+(* the child domain's label is the root's label followed by a digit: "example" + "5500" and "example5" + "500" read the same when
+   a name and a RID are written one after the other without a separator *)
+DomDn(k) == CASE k = 1 -> RootDn [] k = 2 -> <<DC(T("example5"))>> \o RootDn [] k = 3 -> <<DC(T("other")), DC(T("net"))>>
 Fqdn(k) == DnDomainOf(DomDn(k))
 Label(k) == DomDn(k)[1].v
 NetBIOS(nb, k) == IF nb = "same" THEN LHUpper(Label(k)) ELSE T("NB") \o LHUpper(Label(k))
@@ -93,7 +95,8 @@ PrincipalEntries(p, k) ==
     <<E(UsersDn(k), Ccontainer, <<>>)>>
     \o [j \in 1..Len(rids) |-> E(<<CN(T("DR-") \o LHDec(rids[j]))>> \o UsersDn(k), IF RidIsUser(rids[j]) THEN Cperson ELSE Cgroup,
                                  <<Sid(LDSidAppend(DomSid(p, k), rids[j]))>>)]
-    \o (IF k = 1 THEN <<E(<<CN(T("jdoe"))>> \o UsersDn(k), Cperson, <<Sid(LDSidAppend(DomSid(p, k), 1013)), A1(LDAprimaryGroupID, T("513"))>>)>> ELSE <<>>)
+    \o (IF k = 1 THEN <<E(<<CN(T("jdoe"))>> \o UsersDn(k), Cperson, <<Sid(LDSidAppend(DomSid(p, k), 1013)), A1(LDAprimaryGroupID, T("513"))>>),
+                        E(<<CN(T("svc5500"))>> \o UsersDn(k), Cperson, <<Sid(LDSidAppend(DomSid(p, k), 5500)), A1(LDAprimaryGroupID, T("513"))>>)>> ELSE <<>>)
 Computer(p, k, cn, parent, rid, uac, pgid, host) ==
     E(<<CN(cn)>> \o parent, Ccomputer,
       <<Sid(LDSidAppend(DomSid(p, k), rid)), A1(LDAuserAccountControl, LHDec(uac)), A1(LDAprimaryGroupID, LHDec(pgid))>>
@@ -109,8 +112,12 @@ ComputerEntries(p, k) ==
     \o <<E(ComputersDn(k), Ccontainer, <<>>),
          Computer(p, k, T("WS01"), ComputersDn(k), 1103, 4096, 515, T("ws01"))>>
     \o (IF k = 1 THEN <<Computer(p, k, T("WS02"), ComputersDn(k), 1104, 4096, 515, <<>>)>> ELSE <<>>)   \* not joined yet: no dNSHostName
+(* an entry of class domain that is no domain head: no dc attribute, a SID of its own, the same DC components as the root, and
+   returned BEFORE the root by a search for (objectClass=domain) -- in the directories with the NetBIOS-name variation *)
+OddEntry(p) == E(<<OU(T("Lab"))>> \o DomDn(1), <<Ttop, T("domain")>>, <<Sid(DomSid(p.sidp, 3))>>)
 DomainEntries(p, k) ==
-    <<E(DomDn(k), <<Ttop, T("domain"), T("domainDNS")>>, <<Sid(DomSid(p.sidp, k)), A1(LDAdc, Label(k)), A1(LDAbehaviorVersion, Level(k))>>)>>
+    (IF p.nb = "diff" /\ k = 1 THEN <<OddEntry(p)>> ELSE <<>>)
+    \o <<E(DomDn(k), <<Ttop, T("domain"), T("domainDNS")>>, <<Sid(DomSid(p.sidp, k)), A1(LDAdc, Label(k)), A1(LDAbehaviorVersion, Level(k))>>)>>
     \o (IF p.bi = "all" \/ (p.bi = "root" /\ k = 1) THEN BuiltinEntries(k) ELSE <<>>)
     \o PrincipalEntries(p.sidp, k) \o ComputerEntries(p.sidp, k)
 CrossRef(p, k) == E(<<CN(NetBIOS(p.nb, k))>> \o PartitionsDn, <<Ttop, T("crossRef")>>,
@@ -160,7 +167,7 @@ Wide(p) == p.sidp \in VarySidPats /\ p.bi = "root" /\ p.nb = "same" /\ p.dnc = 1
 CallRec(p, m, a, e, open) == [k |-> "call", dir |-> p, m |-> m, a |-> a, want |-> e.want, q |-> e.q, qopen |-> open]
 
 (* FindObjectSIDByRID: every well-known RID (all BUILTIN aliases and their neighbours, the domain principals) and ordinary ones *)
-AllRids == { r.rid : r \in ADRows(ADRidTable) } \cup { 543, 563, 567, 570, 584, 1013, 1105 }
+AllRids == { r.rid : r \in ADRows(ADRidTable) } \cup { 543, 563, 567, 570, 584, 1013, 1105, 5500 }
 FewRids == { 500, 512, 544, 553, 572, 574, 583, 1013 }
 FindNames(p) == { <<Fqdn(1), AllRids>>, <<NetBIOS(p.nb, 1), FewRids>> }
                 \cup (IF p.ndom >= 2 THEN { <<Fqdn(2), IF Full THEN AllRids ELSE FewRids>> } ELSE {})
